@@ -142,3 +142,34 @@ def negate_cmp(op: ast.cmpop) -> ast.cmpop | None:
              ast.LtE: ast.Gt, ast.Is: ast.IsNot, ast.IsNot: ast.Is, ast.In: ast.NotIn, ast.NotIn: ast.In}
     t = table.get(type(op))
     return t() if t else None
+
+
+def path_conditions(node: ast.AST, stop: ast.AST | None = None) -> list[tuple[ast.expr, bool]]:
+    """The `if` tests that govern `node`, innermost first, as (test, holds?) -- holds is False when the node sits in the
+    else-branch.  Walks up the parent links until `stop` (exclusive) or the enclosing function."""
+    out = []
+    child = node
+    for a in ancestors(node):
+        if a is stop or isinstance(a, (ast.FunctionDef, ast.AsyncFunctionDef, ast.Lambda)):
+            break
+        if isinstance(a, ast.If):
+            in_body = any(child is s for s in a.body)
+            in_else = any(child is s for s in a.orelse)
+            if in_body or in_else:
+                out.append((a.test, in_body))
+        child = a
+    return out
+
+
+def extra_conditions(node: ast.AST, main: ast.expr | None, allow=None, stop: ast.AST | None = None) -> list[str]:
+    """Path conditions of `node` other than `main` holding (and other than those `allow(test, holds)` accepts), rendered
+    for a report.  Used by "sole guard" rules: an action that must happen exactly under one condition may not sit under a
+    further, unrelated one."""
+    out = []
+    for t, holds in path_conditions(node, stop):
+        if main is not None and t is main and holds:
+            continue
+        if allow is not None and allow(t, holds):
+            continue
+        out.append(f"`{short(t, 60)}` {'holds' if holds else 'does not hold'}")
+    return out
